@@ -1745,9 +1745,14 @@ func init() {
 					backend = backends.NewRemoteWrapper(fs, remoteBackend) // concrete type, no events: oracles only
 				}
 			}
-			if fsizeLimit >= 0 && do != "build-local" {
-				setFileSizeLimit(uint64(fsizeLimit))
+			// the disk-full fault covers the cache operations (and restores into the workspace), not the harness' own
+			// materialisation of the workspace (= the target's command having run)
+			limitOn := func() {
+				if fsizeLimit >= 0 && do != "build-local" {
+					setFileSizeLimit(uint64(fsizeLimit))
+				}
 			}
+			limitOn()
 			tl.add(map[string]any{"e": "proc", "p": pid, "m": mach, "do": do})
 			cas := caching.NewCas(backend)
 			reg := output.NewRegistry(env.ctx, cas)
@@ -1823,9 +1828,11 @@ func init() {
 						r["outcome"] = "miss"
 						break
 					}
+					liftFileSizeLimit()
 					if err := env.resetWorkspace(req["ws"]); err != nil {
 						return nil, err
 					}
+					limitOn()
 					r["outcome"] = "err"
 					for _, o := range t.outs {
 						data, rerr := os.ReadFile(filepath.Join(env.ws, t.pkg, o.Identifier))
@@ -1846,9 +1853,11 @@ func init() {
 					}
 				case "build", "build-local":
 					// the command ran: its outputs are in the workspace
+					liftFileSizeLimit()
 					if err := env.resetWorkspace(req["ws"]); err != nil {
 						return nil, err
 					}
+					limitOn()
 					var res *gen.TargetResult
 					werr, hung := withTimeout(opTimeout, func() error {
 						var e error
